@@ -76,8 +76,9 @@ pub struct PopScript {
     pub rng: Rng,
     pub pool: Vec<String>,
     pub left: usize,
-    pub made_dir: bool,
-    pub in_subdir: bool,
+    /// directories being populated: (handle slot, name under the root; None = the root itself)
+    pub dirs: Vec<(u8, Option<&'static str>)>,
+    pub made: usize,
 }
 
 impl StepSource for PopScript {
@@ -87,22 +88,38 @@ impl StepSource for PopScript {
         }
         self.left -= 1;
         let mk = |op| Some(Step { c: 0, op, hard_at: None, sticky: false });
-        if self.in_subdir && !self.made_dir {
-            self.made_dir = true;
-            return mk(Op::CreateDir { base: 0, path: "pop".into(), keep: Some(1) });
+        while self.made < self.dirs.len() {
+            let (slot, name) = self.dirs[self.made];
+            self.made += 1;
+            if let Some(n) = name {
+                return mk(Op::CreateDir { base: 0, path: n.into(), keep: Some(slot) });
+            }
         }
-        let base = if self.in_subdir { 1 } else { 0 };
-        let dirn = if self.in_subdir { w.model.child(ROOT, "pop").unwrap_or(ROOT) } else { ROOT };
-        let existing: Vec<String> = w.model.nodes[dirn].children.iter().map(|c| w.model.nodes[*c].name.clone()).collect();
+        let node_of = |d: &(u8, Option<&'static str>)| match d.1 {
+            Some(n) => w.model.child(ROOT, n).unwrap_or(ROOT),
+            None => ROOT,
+        };
+        let skip = |n: &String| n == "pop" || n == "pop2";
+        let di = self.rng.usize_below(self.dirs.len());
+        let base = self.dirs[di].0;
+        let dirn = node_of(&self.dirs[di]);
+        let existing: Vec<String> = w.model.nodes[dirn].children.iter().map(|c| w.model.nodes[*c].name.clone()).filter(|n| !skip(n)).collect();
         let r = self.rng.below(100);
-        if r < 18 && !existing.is_empty() {
+        if r < 16 && !existing.is_empty() {
             return mk(Op::Remove { base, path: self.rng.pick(&existing).clone() });
         }
-        if r < 26 && !existing.is_empty() {
+        if r < 24 && !existing.is_empty() {
             let to = self.pool[self.rng.usize_below(self.pool.len())].clone();
             return mk(Op::Rename { sbase: base, spath: self.rng.pick(&existing).clone(), dbase: base, dpath: to });
         }
-        if r < 28 {
+        if r < 36 && !existing.is_empty() && self.dirs.len() > 1 {
+            // move into the other directory, mostly under the same name: the alias it had is taken there, or not
+            let dj = (di + 1) % self.dirs.len();
+            let from = self.rng.pick(&existing).clone();
+            let to = if self.rng.chance(3, 4) { from.clone() } else { self.pool[self.rng.usize_below(self.pool.len())].clone() };
+            return mk(Op::Rename { sbase: base, spath: from, dbase: self.dirs[dj].0, dpath: to });
+        }
+        if r < 38 {
             return mk(Op::Checkpoint);
         }
         let name = self.pool[self.rng.usize_below(self.pool.len())].clone();
@@ -158,7 +175,11 @@ pub fn run(seed: u64, size: usize) -> RunOutcome {
     }
     let steps = size * 3 + 20;
     let in_subdir = cfg.vol.fat == 32 || r.chance(2, 3);
-    let mut src = PopScript { rng: Rng::new(seed ^ 0xC16), pool, left: steps, made_dir: false, in_subdir };
+    let mut dirs: Vec<(u8, Option<&'static str>)> = vec![if in_subdir { (1, Some("pop")) } else { (0, None) }];
+    if r.chance(1, 2) {
+        dirs.push((2, Some("pop2")));
+    }
+    let mut src = PopScript { rng: Rng::new(seed ^ 0xC16), pool, left: steps, dirs, made: 0 };
     let res = exec::run(cfg.clone(), "C16", &mut src, steps + 10);
     let mut o = RunOutcome::empty();
     o.evaluations = res.stats.ops_ok.max(1);
